@@ -32,6 +32,25 @@ def _is_limited(t):
     return contains(t, lambda y: y[0] == 'inst' and y[1].endswith('_RateLimitedFileWrapper'))
 
 
+PASS_THROUGH_WRAPPERS = ('TQDMIOReader', 'TQDMIOWriter', 'TQDMIOBase')
+
+
+def _can_be_unlimited(t):
+    """Is there a choice of alternatives under which the stream object reaches the
+    backend without a limiter wrapper around the raw stream?"""
+    if t[0] == 'alt':
+        return any(_can_be_unlimited(x) for x in t[1])
+    if t[0] == 'inst':
+        if t[1].endswith('_RateLimitedFileWrapper'):
+            return False
+        if t[1].rsplit('::', 1)[-1] in PASS_THROUGH_WRAPPERS and t[2]:
+            return _can_be_unlimited(t[2][0])
+        return True
+    if t[0] == 'call' and t[1][0] == 'name' and t[1][1].endswith('CallbackIOWrapper') and len(t[2]) >= 2:
+        return _can_be_unlimited(t[2][1])
+    return True
+
+
 def r1_r3(ctx):
     corpus = ctx.corpus
     for cmd, meth in COMMANDS:
@@ -50,7 +69,7 @@ def r1_r3(ctx):
                 if stream is None:
                     ctx.fail('C20.R1', f'{func_label(fn)}|stream-arg', site, f'{cmd}: backend.{meth} without a stream argument')
                     continue
-                lim = all(_is_limited(a) for a in alts(stream))
+                lim = not _can_be_unlimited(stream)
                 anyl = any(_is_limited(a) for a in alts(stream))
                 if limited:
                     ctx.check(
@@ -162,7 +181,17 @@ def r4_debt_lock(ctx):
             arg = c.args[0] if c.args else None
             ctx.check(arg is not None and any(isinstance(x, ast.Attribute) and x.attr == field for x in ast.walk(arg)), 'C20.R4', f'{func_label(f)}|sleeps-the-debt', loc(f, c), f'{mname}: sleeps the accumulated debt', f'{mname}: sleeps `{src(arg) if arg is not None else ""}`, not the accumulated debt')
         # accumulation: += seconds
-        acc = [a for a in walk_local(f.node) if isinstance(a, ast.AugAssign) and isinstance(a.op, ast.Add) and isinstance(a.target, ast.Attribute) and a.target.attr == field and isinstance(a.value, ast.Name) and a.value.id == 'seconds']
+        pname = f.node.args.args[1].arg if len(f.node.args.args) > 1 else None
+        acc = [a for a in walk_local(f.node) if isinstance(a, ast.AugAssign) and isinstance(a.op, ast.Add) and isinstance(a.target, ast.Attribute) and a.target.attr == field and isinstance(a.value, ast.Name) and a.value.id == pname]
+        reassigned = [a for a in ast.walk(f.node) if isinstance(a, ast.Name) and a.id == pname and isinstance(a.ctx, ast.Store)]
+        ctx.check(
+            not reassigned,
+            'C20.R4',
+            f'{func_label(f)}|owed-pause-not-discounted',
+            loc(f, reassigned[0]) if reassigned else loc(f, f.node),
+            f'{mname}: the pause owed by the caller (`{pname}`) is charged as given',
+            f'{mname}: the pause owed by the caller is rewritten before it is charged (`{src(enclosing_stmt(reassigned[0]), 70) if reassigned else ""}`): e.g. time spent waiting for the lock - during which other streams kept transferring - is credited, so N queued streams pass more than the limit',
+        )
         ctx.check(len(acc) == 1, 'C20.R4', f'{func_label(f)}|debt-accumulates', loc(f, f.node), f'{mname}: debt += seconds exactly once per call', f'{mname}: the pause owed by a call is not added to the debt exactly once')
     # fields initialised in __init__ only
     init = rl.methods['__init__']
@@ -212,6 +241,20 @@ def r5_wrapper(ctx):
             loc(f, pauses[0]) if pauses else loc(f, f.node),
             f'{m}: exactly one unconditional {pause}(max(bytes/limit - elapsed, 0)) per call',
             f'{m}: the pause is not max(bytes/{limit} - elapsed, 0) charged once per call (credit, conditions or another formula change what the limiter enforces)',
+        )
+    # positioning methods do not touch the limiter (a rewind must not create credit)
+    for m in ('seek', 'tell', 'truncate'):
+        f = corpus.method(w, m)
+        if f is None:
+            continue
+        touches = [a for a in ast.walk(f.node) if isinstance(a, ast.Attribute) and a.attr == '_rate_limiter']
+        ctx.check(
+            not touches,
+            'C20.R5',
+            f'{func_label(f)}|positioning-does-not-touch-limiter',
+            loc(f, f.node),
+            f'_RateLimitedFileWrapper.{m} does not touch the limiter',
+            f'_RateLimitedFileWrapper.{m} adjusts the limiter: a rewind (every retry after a fault seeks to 0) refunds debt and the re-sent bytes go through unpaced',
         )
     # TQDM wrappers (shared with C12.R3) also must not alter data
     for cname, meths in (('TQDMIOReader', ('read',)), ('TQDMIOWriter', ('write',)), ('TQDMIOBase', ('seek', 'truncate'))):
